@@ -81,15 +81,24 @@ package parser
 //@ unverified
 //@ props C19 C05
 //@ requires four: len(delims) == 4
+//@ requires nonempty: forall(k, 0, 4, delims[k] != "")
 //@ assigns alloc S$Str
 //@ ensures built: result != nil && forall(k, 0, 4, tmd(result, k) == delims[k])
 
+// Scan is parametric in the delimiters (C19): the effective delimiter k is the caller's
+// delims[k] unless that is empty (or the slice does not have four entries), in which case it
+// is the default; the caller's slice is never written. A token is an object iff it starts with
+// the effective object-left delimiter; the whitespace-control hyphen is the byte right after
+// the left delimiter / right before the right delimiter, whatever their lengths; TrimLeft /
+// TrimRight tokens are emitted exactly when those bytes are hyphens.
+//@ define dflt(k Int) Str = ite(k == 0, "{{", ite(k == 1, "}}", ite(k == 2, "{%", "%}")))
 //@ func parser.Scan
 //@ props C05 C07 C13 C19 C01
 //@ panics nothing
-//@ requires delims: len(delims) != 4 || forall(k, 0, 4, len(delims[k]) == 2)
 //@ ghost cov Int = 0
 //@ ghost pendingL Bool = false
+//@ ghost pendingR Bool = false
+//@ at call formTokenMatcher #1 assert effective: forall(k, 0, 4, arg0[k] == ite(len(delims0) == 4 && delims0[k] != "", delims0[k], dflt(k)))
 //@ at call append #* before assert contiguous: arg1[0].Source == substr(data, cov, cov + len(arg1[0].Source)) && cov + len(arg1[0].Source) <= len(data)
 //@ at call append #* before assert line: arg1[0].Source != "" ==> arg1[0].SourceLoc.LineNo == loc0.LineNo + count(substr(data, 0, cov), '\n') && arg1[0].SourceLoc.Pathname == loc0.Pathname
 //@ at call append #*: cov = cov + len(arg1[0].Source)
@@ -97,18 +106,25 @@ package parser
 //@ at call Count #1 after assert textLines: count(substr(data, 0, ts), '\n') == count(substr(data, 0, p), '\n') + result
 //@ at call Count #2 after assert tokenLines: count(substr(data, 0, te), '\n') == count(substr(data, 0, ts), '\n') + result
 //@ at call append #2: pendingL = true
-//@ at call append #3 before assert object: arg1[0].Type == ObjTokenType && pendingL == (at(arg1[0].Source, 2) == '-')
+//@ at call append #3 before assert object: arg1[0].Type == ObjTokenType && substr(arg1[0].Source, 0, len(delims[0])) == delims[0] && pendingL == (at(arg1[0].Source, len(delims[0])) == '-')
 //@ at call append #3: pendingL = false
-//@ at call append #4 before assert trimRightObj: arg1[0].Type == TrimRightTokenType && arg1[0].Source == ""
+//@ at call append #3: pendingR = (at(arg1[0].Source, len(arg1[0].Source) - len(delims[1]) - 1) == '-')
+//@ at call append #4 before assert trimRightObj: arg1[0].Type == TrimRightTokenType && arg1[0].Source == "" && pendingR
+//@ at call append #4: pendingR = false
 //@ at call append #5: pendingL = true
-//@ at call append #6 before assert tag: arg1[0].Type == TagTokenType && pendingL == (at(arg1[0].Source, 2) == '-')
+//@ at call append #6 before assert tag: arg1[0].Type == TagTokenType && substr(arg1[0].Source, 0, len(delims[2])) == delims[2] && pendingL == (at(arg1[0].Source, len(delims[2])) == '-')
 //@ at call append #6: pendingL = false
-//@ at call append #7 before assert trimRightTag: arg1[0].Type == TrimRightTokenType && arg1[0].Source == ""
-//@ at call append #8 before assert tail: arg1[0].Type == TextTokenType
-//@ loop 1 invariant pos: cov == p && 0 <= p && p <= len(data) && !pendingL && pe == len(data)
-//@ loop 1 invariant ordered: p == ite(_i > 0, _r[_i-1][1], 0)
-//@ loop 1 invariant line: loc.LineNo == loc0.LineNo + count(substr(data, 0, p), '\n') && loc.Pathname == loc0.Pathname
+//@ at call append #6: pendingR = (at(arg1[0].Source, len(arg1[0].Source) - len(delims[3]) - 1) == '-')
+//@ at call append #7 before assert trimRightTag: arg1[0].Type == TrimRightTokenType && arg1[0].Source == "" && pendingR
+//@ at call append #7: pendingR = false
+//@ loop 1 invariant dflts: len(defaults) == 4 && fresh(defaults) && len(delims) == 4 && delims == delims0
+//@ loop 1 invariant merged: forall(k, 0, 4, defaults[k] == ite(k < _i && delims0[k] != "", delims0[k], dflt(k)))
+//@ loop 2 invariant pos: cov == p && 0 <= p && p <= len(data) && !pendingL && !pendingR && pe == len(data)
+//@ loop 2 invariant ordered: p == ite(_i > 0, _r[_i-1][1], 0)
+//@ loop 2 invariant line: loc.LineNo == loc0.LineNo + count(substr(data, 0, p), '\n') && loc.Pathname == loc0.Pathname
+//@ loop 2 invariant delims: len(delims) == 4 && forall(k, 0, 4, delims[k] != "" && tmd(tokenMatcher, k) == delims[k])
 //@ ensures partition: cov == len(data)
+//@ ensures callerDelims: forall(k, 0, len(delims), delims[k] == old(delims[k]))
 
 // ---- block structure (C06, C05) ------------------------------------------------------
 // The parser sees the grammar only through these predicates; every BlockSyntax is exactly
